@@ -565,7 +565,9 @@ class domain(config_domain):
 
     def _make_keywords_filter(self, default_keys, accept_keywords):
         """Generates a restrict that matches iff the keywords are allowed."""
-        if not accept_keywords and not self.profile.keywords:
+        # the wildcards need the keywords looked at, not just contained
+        wildcards = {"*", "~*", "**"}.intersection(default_keys)
+        if not accept_keywords and not self.profile.keywords and not wildcards:
             return packages.PackageRestriction(
                 "keywords", values.ContainmentMatch(frozenset(default_keys))
             )
